@@ -46,7 +46,8 @@ a negative time-out.  `start_reference(k)` starts the reference allocator at k (
 issued k sequence numbers).
 
 Everything observable is appended, in program order, to `events`:
-    ["send", seq, cmd, burst, t, kind]              a datagram handed to socket.send
+    ["send", seq, cmd, burst, t, kind, ...]         a datagram handed to socket.send (... = whatever else the codec
+                                                    reports about the request, e.g. "carries the command's data")
     ["select", timeout, t_before, t_after, ready]
     ["recv", seq, rc, t, burst, cmd]                a datagram returned by socket.recv (burst, cmd: whom it answers)
 The caller appends its own events (burst / callback / raise / return / end) to the same list.
@@ -110,7 +111,7 @@ class VirtualNet(object):
 
     def __init__(self, codec, fates=(), default=None, overs=(), lifetime=True, max_selects=4000, start=0,
                  quantum=QUANTUM, seqmod=65536):
-        self.codec = codec              # .request(bytes) -> (seq, cmd, burst); .reply(seq, rc, cmd, burst, txid) -> bytes
+        self.codec = codec              # .request(bytes) -> (seq, cmd, burst, ...); .reply(seq, rc, cmd, burst, txid) -> bytes
         self.fates = list(fates)
         self.default = default
         self.overs = list(overs)
@@ -189,7 +190,8 @@ class VirtualNet(object):
 
     # ------------------------------------------------------------------ the socket's two ends
     def _send(self, data):
-        seq, cmd, burst = self.codec.request(data)
+        req = self.codec.request(data)
+        seq, cmd, burst = req[:3]
         if self.ntx < len(self.fates):
             fate = self.fates[self.ntx]
         elif self.default is not None:
@@ -216,7 +218,9 @@ class VirtualNet(object):
                         if not (self.ref_of.get((d[3][3], d[3][2])) == ref and (d[3][3], d[3][2]) != (burst, cmd))]
                 self.expired += len(self.inflight) - len(keep)
                 self.inflight = keep
-        self.events.append(["send", seq, cmd, burst, self.tick(self.now), fate[0]])
+        # (a codec may report more about the datagram than whom it is for - e.g. whether it carries, byte for byte,
+        # the data the caller gave that command; whatever it reports is recorded after the label, not interpreted)
+        self.events.append(["send", seq, cmd, burst, self.tick(self.now), fate[0]] + list(req[3:]))
         for rc, delay in fate[1:]:
             self.order += 1
             self.inflight.append([self.now + delay * self.quantum, self.order, self.codec.reply(seq, rc, cmd, burst, txid),
